@@ -26,7 +26,7 @@ def materialize(path, entry, root):
         materialize(os.path.join(path, "n"), entry[2], root)
         os.chmod(path, entry[1])
     elif k == "link":
-        txt = os.path.join(root, "sibling") if entry[1] == "abs_inside" else LINKTXT[entry[1]]
+        txt = os.path.join(root, "sibling") if entry[1] == "abs_inside" else os.path.join(root, "..cache", "x") if entry[1] == "abs_inside_dd" else LINKTXT[entry[1]]
         os.symlink(txt, path)
 
 
@@ -39,6 +39,8 @@ def observe(path, root):
         txt = os.readlink(path)
         if txt == os.path.join(root, "sibling"):
             return ["link", "abs_inside"]
+        if txt == os.path.join(root, "..cache", "x"):
+            return ["link", "abs_inside_dd"]
         for k, v in LINKTXT.items():
             if txt == v:
                 return ["link", k]
